@@ -5,6 +5,7 @@ from flask import g
 from flask import json
 from flask import request as _req
 from werkzeug.local import LocalProxy
+from werkzeug.urls import iri_to_uri
 
 from authlib.consts import default_json_headers
 from authlib.oauth1 import ResourceProtector as _ResourceProtector
@@ -88,8 +89,11 @@ class ResourceProtector(_ResourceProtector):
         return self._exists_nonce(nonce, timestamp, client_id, token)
 
     def acquire_credential(self):
+        # ``request.url`` is an IRI (escaped non-ASCII characters are decoded),
+        # the signature base string is built from the URI as it was requested
+        uri = iri_to_uri(_req.url)
         req = self.validate_request(
-            _req.method, _req.url, _req.form.to_dict(flat=True), _req.headers
+            _req.method, uri, _req.form.to_dict(flat=True), _req.headers
         )
         g.authlib_server_oauth1_credential = req.credential
         return req.credential
